@@ -40,7 +40,7 @@ import (
 //	   mode 1: tuning.Chunks(Range{a, b})  -> [s0 e0 s1 e1 ...]
 func init() {
 	hx.Register(&hx.Stream{Name: "c20_shuffle", Gen: genC20Shuffle, Run: runC20Shuffle})
-	hx.Register(&hx.Stream{Name: "c20_file", Gen: genC20File, Run: runC20File})
+	hx.Register(&hx.Stream{Name: "c20_file", Gen: genC20File, Run: runC20File, Shrink: shrinkC20File, Describe: describeC20File})
 	hx.Register(&hx.Stream{Name: "c20_big", Gen: genC20Big, Run: runC20File})
 	hx.Register(&hx.Stream{Name: "c20_batch", Gen: genC20Batch, Run: runC20Batch})
 }
